@@ -371,3 +371,10 @@ mutant("c09-legendre12-weight-digits", "C09", "R10.3", (T, "(0.1252334085114689,
 # ---- fixes a3d1b02 / 7aac680 inverted: the first step of the Broyden solves is not tested, a zero step reaches the 0/0 update
 mutant("c08-secant-first-step-untested", "C08", "R8.5/roots::secant/zero-step-division", (RM, "    if shift.norm().abs() <= tol {\n        return Ok(guess);\n    }\n\n    while n < n_max {", "    while n < n_max {"))
 mutant("c05-bdf-secant-first-step-untested", "C05", "R3.8/BDFSolver::secant/zero-step-division", (BDF, "        if shift.norm() <= self.tolerance.real() {\n            return Ok(guess);\n        }\n\n        while n < 1000 {", "        while n < 1000 {"))
+
+# ---- seed round 9: slips that only show for complex scalars
+GA = "src/integrate/gaussian.rs"
+mutant("c09-gauss-err-real-part", "C09", "R9.5", (GA, "        let err = (area - prev_area).abs();", "        let err = (area - prev_area).real().abs();", (2, 5)))
+mutant("c13-integrate-equal-real-parts", "C13", "R13.3/Polynomial::integrate/F(b)-F(a):complex", (PM, "        poly_anti.evaluate(upper) - poly_anti.evaluate(lower)\n", "        if lower.real() == upper.real() {\n            return N::zero();\n        }\n        poly_anti.evaluate(upper) - poly_anti.evaluate(lower)\n"))
+benign("c13-integrate-equal-limits-shortcut", "C13", (PM, "        poly_anti.evaluate(upper) - poly_anti.evaluate(lower)\n", "        if lower == upper {\n            return N::zero();\n        }\n        poly_anti.evaluate(upper) - poly_anti.evaluate(lower)\n"))
+mutant("c11-purge-leading-real-twice", "C11", "R11.7/Polynomial::purge_leading/keeps-imaginary-lead", (PM, "            && self.coefficients.last().unwrap().imaginary().abs() <= self.tolerance", "            && self.coefficients.last().unwrap().real().abs() <= self.tolerance"))
